@@ -1367,7 +1367,7 @@ def __deftype_method_arity_to_py_ast(
     with (
         ctx.new_symbol_table(node.name, is_context_boundary=True),
         ctx.new_recur_point(
-            arity.loop_id, RecurType.METHOD, is_variadic=node.is_variadic
+            arity.loop_id, RecurType.METHOD, is_variadic=arity.is_variadic
         ),
     ):
         this_name = genname(munge(arity.this_local.name))
@@ -2193,7 +2193,7 @@ def __multi_arity_fn_to_py_ast(  # pylint: disable=too-many-locals
         with (
             ctx.new_symbol_table(arity_name, is_context_boundary=True),
             ctx.new_recur_point(
-                arity.loop_id, RecurType.FN, is_variadic=node.is_variadic
+                arity.loop_id, RecurType.FN, is_variadic=arity.is_variadic
             ),
         ):
             # Allow named anonymous functions to recursively call themselves
